@@ -111,6 +111,10 @@ func (this *Dataset) SizeInfo(ctx context.Context) (uint64, uint64, error) {
 	errorCh := make(chan error, len(this.partitions))
 	for _, partition := range this.partitions {
 		if partition.isOnNode(this.clusterConn.Id()) {
+			if !partition.isLoaded() {
+				errorCh <- RaftNotLoadedOnNodeErr
+				continue
+			}
 			atomic.AddUint64(&resultLen, uint64(partition.len()))
 			atomic.AddUint64(&resultBytesSize, partition.bytesSize())
 			errorCh <- nil
@@ -165,6 +169,9 @@ func (this *Dataset) PartitionInfo(ctx context.Context, partitionId uuid.UUID) (
 
 	if !partition.isOnNode(this.clusterConn.Id()) {
 		return 0, 0, PartitionNotOnNodeErr
+	}
+	if !partition.isLoaded() {
+		return 0, 0, RaftNotLoadedOnNodeErr
 	}
 
 	return uint64(partition.len()), partition.bytesSize(), nil
